@@ -496,6 +496,12 @@ func (c *control) dirCase(colon, at bool, params []any) {
 	default:
 		c.out = append(c.out, bytes.ToLower(c2.out)...)
 	}
+	if c2.stop {
+		// ~^ inside the block: what was written is converted, then the
+		// enclosing iteration or the whole format ends as well.
+		c.stop = true
+		c.pos = c.end
+	}
 }
 
 // capitalize converts buf to lowercase and then the first character of each
@@ -1558,6 +1564,11 @@ func (c *control) dirCond(colon, at bool, params []any) {
 		}
 	}
 	c.pos = pos + 2
+	if c.stop {
+		// ~^ inside the selected clause also ends the enclosing iteration
+		// or the whole format.
+		c.pos = c.end
+	}
 }
 
 func (c *control) scanCond(buf []byte, pos int) ([]string, string, int) {
@@ -1636,6 +1647,9 @@ func (c *control) subProcess(str string) {
 	c2.process()
 	c.out = c2.out
 	c.argPos = c2.argPos
+	if c2.stop {
+		c.stop = true
+	}
 }
 
 func (c *control) dirIter(colon, at bool, params []any) {
